@@ -237,7 +237,14 @@ def sound_export(dumped):
         for f in files:
             if not isinstance(f, dict) or not isinstance(f.get(b'length'), int) or f[b'length'] < 0:
                 return 'file-length'
-            if not isinstance(f.get(b'path'), list) or not all(isinstance(c, bytes) for c in f[b'path']):
+            pth = f.get(b'path')
+            if pth is None:
+                return 'file-path'
+            if isinstance(pth, list):
+                if not all(isinstance(c, bytes) for c in pth):
+                    return 'file-path'
+            elif pth:
+                # a non-list path is only tolerated when it is empty (no component that could be a non-string)
                 return 'file-path'
             size += f[b'length']
     if len(pieces) != 20 * (-(-size // pl)):
